@@ -34,7 +34,8 @@ def nodeJ (nd : NodeS) : Json :=
           | none => Json.null
           | some (v : Nat) => toJson v)).toArray),
        ("o", natsJ nd.outputs),
-       ("d", Json.arr (nd.dev.map nodeCfgJ).toArray)]
+       ("d", Json.arr (nd.dev.map nodeCfgJ).toArray),
+       ("s", natsJ nd.subgraphs)]
 
 def errJ : Err → Json
   | .cfgEmptyName => "cfgEmptyName"
@@ -53,21 +54,32 @@ def pspecJ (p : PSpec) : Json :=
 def pcfgJ (p : PCfg) : Json :=
   Json.arr #[Json.str p.id, Json.arr (p.specs.map pspecJ).toArray, optIntJ p.stage]
 
-def serJ : Option (List (List PCfg)) → Json
-  | none => Json.str "raised"
-  | some l => Json.arr (l.map (fun ps => Json.arr (ps.map pcfgJ).toArray)).toArray
+def sortNats (l : List Nat) : List Nat := (l.toArray.qsort (· < ·)).toList
 
-def modelJ (w : World) (m : Nat) (ms : ModelS) : Json :=
-  obj [("i", natsJ ms.inputs), ("n", natsJ ms.nodes), ("c", natsJ ms.cfgs),
-       ("ir", toJson ms.irVersion),
-       ("chk", Json.arr ((check w m).map errJ).toArray),
-       ("ser", serJ (serModelDev w m))]
+/-- per node (ascending node id): the serialized device field, or "raised" for the whole model -/
+def serJ (w : World) (ms : ModelS) : Json :=
+  match optAll (ms.nodes.map (fun n => serNodeDev w (nodeGated w ms n) (w.node n))) with
+  | none => Json.str "raised"
+  | some _ =>
+    Json.arr ((sortNats ms.nodes).map (fun n =>
+      Json.arr #[toJson n, Json.arr (((serNodeDev w (nodeGated w ms n) (w.node n)).getD []).map pcfgJ).toArray])).toArray
+
+/-- per node (ascending node id): the checker's violation kinds for that node, in order -/
+def chkJ (w : World) (ms : ModelS) : Json :=
+  Json.arr ((sortNats ms.nodes).map (fun n =>
+    Json.arr #[toJson n, Json.arr ((checkNode w ms (w.node n)).map errJ).toArray])).toArray
+
+def modelJ (w : World) (_m : Nat) (ms : ModelS) : Json :=
+  obj [("g", toJson ms.graph), ("gs", natsJ (sortNats ms.graphs)), ("n", natsJ (sortNats ms.nodes)),
+       ("c", natsJ ms.cfgs), ("ir", toJson ms.irVersion),
+       ("chk", chkJ w ms), ("ser", serJ w ms)]
 
 def stateJ (w : World) : Json :=
   obj [("values", Json.arr (w.values.map (fun v => Json.arr #[Json.str v.name, shapeJ v.shape])).toArray),
        ("cfgs", Json.arr (w.cfgs.map (fun c =>
           Json.arr #[Json.str c.name, toJson c.numDevices, strsJ c.deviceNames])).toArray),
        ("nodes", Json.arr (w.nodes.map nodeJ).toArray),
+       ("graphs", Json.arr (w.graphs.map (fun g => obj [("i", natsJ g.inputs), ("n", natsJ g.nodes)])).toArray),
        ("models", Json.arr ((List.range w.models.length).map
           (fun m => modelJ w m (w.model m))).toArray)]
 
@@ -110,15 +122,16 @@ def parseOp (j : Json) : Except String Op := do
   let op ← getStr j "op"
   match op with
   | "newModel" => pure (.newModel (← getNat j "ir"))
-  | "newInput" => pure (.newInput (← getNat j "m") (← getStr j "name") (← getShape j "shape"))
+  | "newInput" => pure (.newInput (← getNat j "g") (← getStr j "name") (← getShape j "shape"))
+  | "newSubgraph" => pure (.newSubgraph (← getNat j "n"))
   | "newNode" =>
     let ins ← (← getArr j "ins").mapM parseOptNat
     let outs ← (← getArr j "outs").mapM (fun o => do
       let name ← getStr o "name"
       let sh ← getShape o "shape"
       pure (name, sh))
-    pure (.newNode (← getNat j "m") ins outs)
-  | "removeNode" => pure (.removeNode (← getNat j "m") (← getNat j "n") (← getBool j "safe"))
+    pure (.newNode (← getNat j "g") ins outs)
+  | "removeNode" => pure (.removeNode (← getNat j "g") (← getNat j "n") (← getBool j "safe"))
   | "rename" => pure (.rename (← getNat j "v") (← getStr j "name"))
   | "addCfg" =>
     pure (.addCfg (← getNat j "m") (← getStr j "name") (← getOptInt j "num") (← getStrs j "names"))
